@@ -290,6 +290,81 @@ def simplify(e):
     return go(e)
 
 
+def expand_combinators(prog, e, depth=4):
+    """rewrite Result/Option combinators applied to a function item or a closure into the explicit alternatives they
+    stand for, so that `r.map(f).map_err(|_| E)` and `match r { Ok(v) => Ok(f(v)), Err(_) => Err(E) }` look alike:
+      Result::map(r, F)      -> phi(Ok{0: F(r.@Ok.0)} | Err{0: r.@Err.0})
+      Result::map_err(r, F)  -> phi(Ok{0: r.@Ok.0}  | Err{0: F(r.@Err.0)})
+      Option::map(o, F)      -> phi(Some{0: F(o.@Some.0)} | None)
+      Result::ok(r)          -> phi(Some{0: r.@Ok.0} | None)
+    A phi receiver is distributed over.  F: ('fn', path) becomes a call, a closure aggregate is replaced by its
+    return expression(s) with the captures and the argument substituted."""
+    from .mirlib import Expr
+
+    def apply(F, arg):
+        F = strip(F)
+        if F[0] == "fn":
+            return [("call", F[1], (arg,), 0)]
+        cl, caps = closure_of(F)
+        if cl and cl in prog.bodies:
+            rets = Expr(prog, cl).returns()
+            return [subst_closure(r, caps, (arg,)) for r in rets]
+        return None
+
+    def alts_of(x):
+        x = strip(x)
+        return [strip(a) for a in x[1]] if x[0] == "phi" else [x]
+
+    def agg(adt, variant, val=None):
+        return ("agg", adt, variant, ((("0", val),) if val is not None else ()))
+
+    def go(x, d):
+        if not isinstance(x, tuple) or not x:
+            return x
+        if x[0] in ("const", "param", "static", "fn", "never"):
+            return x
+        if x[0] == "call" and isinstance(x[1], str) and len(x) >= 3 and d > 0:
+            args = tuple(go(a, d) for a in x[2])
+            m = re.search(r"^core::(result::Result::<T, E>|option::Option::<T>)::(map|map_err|ok)$", x[1])
+            if m and args:
+                is_res = m.group(1).startswith("result")
+                kind = m.group(2)
+                out = []
+                for r in alts_of(args[0]):
+                    okv = ("field", r, ("@Ok" if is_res else "@Some", "0"))
+                    if kind == "ok" and is_res:
+                        out += [agg("core::option::Option", "Some", okv), agg("core::option::Option", "None")]
+                        continue
+                    if len(args) != 2:
+                        return (x[0], x[1], args) + tuple(x[3:])
+                    if kind == "map":
+                        vals = apply(args[1], okv)
+                        if vals is None:
+                            return (x[0], x[1], args) + tuple(x[3:])
+                        if is_res:
+                            out += [agg("core::result::Result", "Ok", go(v, d - 1)) for v in vals] + [agg("core::result::Result", "Err", ("field", r, ("@Err", "0")))]
+                        else:
+                            out += [agg("core::option::Option", "Some", go(v, d - 1)) for v in vals] + [agg("core::option::Option", "None")]
+                    elif kind == "map_err" and is_res:
+                        vals = apply(args[1], ("field", r, ("@Err", "0")))
+                        if vals is None:
+                            return (x[0], x[1], args) + tuple(x[3:])
+                        out += [agg("core::result::Result", "Ok", okv)] + [agg("core::result::Result", "Err", go(v, d - 1)) for v in vals]
+                    else:
+                        return (x[0], x[1], args) + tuple(x[3:])
+                out = [simplify(o) for o in out]
+                out = [o for o in out if o != NEVER and not mentions(o, lambda z: z == NEVER)]
+                uniq = []
+                for o in out:
+                    if o not in uniq:
+                        uniq.append(o)
+                return uniq[0] if len(uniq) == 1 else ("phi", tuple(uniq))
+            return (x[0], x[1], args) + tuple(x[3:])
+        return tuple(go(y, d) if isinstance(y, tuple) else y for y in x)
+
+    return go(e, depth)
+
+
 def mentions_deep(prog, e, pred, depth=3):
     """mentions(e, pred), also looking into the bodies (return expressions and call arguments) of closures that
     occur in e: `x.and_then(|v| f(v))` mentions f"""
